@@ -297,6 +297,41 @@ func HScanC(dir string, prog *HProgram) (*HCFacts, error) {
 
 // Line: canonical one-line rendering of a Lua function fact (harness and model driver print the same).
 func (f *HCLuaFn) Line() string {
-	return fmt.Sprintf("cfunc=%s callbacks=[%s] sqlstep=%v guards=[%s]", strings.ReplaceAll(f.CFunc, " ", "_"),
-		strings.Join(f.Callbacks, ","), f.SQLStep, strings.Join(f.GuardsBeforeStep, ","))
+	var gs []string
+	for _, g := range f.Guards {
+		cmp := g.Cmp
+		if cmp == "gt" || cmp == "ge" || cmp == "ne" {
+			cmp = fmt.Sprintf("%s%d", cmp, g.K)
+		}
+		r := "noraise"
+		if g.Raise {
+			r = "raise"
+		}
+		gs = append(gs, g.Call+":"+cmp+":"+r)
+	}
+	return fmt.Sprintf("cfunc=%s callbacks=[%s] sqlstep=%v guards=[%s] stopsview=%v", strings.ReplaceAll(f.CFunc, " ", "_"),
+		strings.Join(f.Callbacks, ","), f.SQLStep, strings.Join(gs, ","), f.ViewGuarded())
+}
+
+// ViewGuarded: some guard in front of the SQL execution is `if (luaCheckView(…) ⋈ k) <raise>` with a comparison that
+// holds for every positive view depth (mirror of CLuaFn.viewGuarded in Model.HostApi).
+func (f *HCLuaFn) ViewGuarded() bool {
+	for _, g := range f.Guards {
+		if g.Call != "luaCheckView" || !g.Raise {
+			continue
+		}
+		switch g.Cmp {
+		case "gt", "ne":
+			if g.K <= 0 {
+				return true
+			}
+		case "ge":
+			if g.K <= 1 {
+				return true
+			}
+		case "truthy":
+			return true
+		}
+	}
+	return false
 }
